@@ -2553,7 +2553,10 @@ impl Connection {
                 src_cid: rem_cid, ..
             } => {
                 if self.side.is_server() {
-                    return Err(TransportError::PROTOCOL_VIOLATION("client sent Retry").into());
+                    // Retry packets carry no proof of origin a server could check; anything that
+                    // looks like one (e.g. a damaged long header) must not end the connection
+                    trace!("discarding Retry received by a server");
+                    return Ok(());
                 }
 
                 if self.total_authed_packets > 1
